@@ -288,6 +288,8 @@ def mutate(rng, tgt, ios, with_groups=True, unmanaged=True, max_edits=None):
         # content outside Netspoc's scope
         if not ios:
             dev['intfs'].append('mgmt')
+            if rng.random() < 0.5:
+                dev.setdefault('shut', []).append('mgmt')      # an unknown interface that is administratively down
             dev['groups']['admins'] = (['network'], [['network-object', 'host', '10.99.0.1'], ['network-object', 'host', '10.99.0.2']])
             dev['acls']['mgmt_in'] = [['extended', 'permit', 'tcp', 'object-group', 'admins', 'any4', 'eq', '22'],
                                       ['extended', 'deny', 'ip', 'any4', 'any4']]
@@ -312,6 +314,16 @@ def mutate(rng, tgt, ios, with_groups=True, unmanaged=True, max_edits=None):
                 info['unm_groups'].append('left-DRC-7')
                 info['keep'].append('left-DRC-7')
             info['unm_acls'].append('unused_acl')
+            if rng.random() < 0.5:
+                # a manually configured crypto map (not bound, no -DRC- name) still uses a generated ACL of two lines;
+                # only the second line uses the generated group
+                dev['groups']['oldgrp-DRC-0'] = (['network'], [['network-object', 'host', '10.99.3.3'], ['network-object', 'host', '10.99.3.4']])
+                dev['acls']['oldvpn-DRC-0'] = [['extended', 'permit', 'ip', 'host', '10.99.3.2', 'any4'],
+                                               ['extended', 'permit', 'ip', 'object-group', 'oldgrp-DRC-0', 'any4']]
+                dev.setdefault('extra_header', []).extend(['crypto map legacy 10 match address oldvpn-DRC-0', 'crypto map legacy 10 set peer 10.99.3.1'])
+                info['unm_acls'].append('oldvpn-DRC-0')
+                info['unm_groups'].append('oldgrp-DRC-0')
+                info['keep'] += ['oldvpn-DRC-0', 'oldgrp-DRC-0']
             if not tgt['routes'] and rng.random() < 0.5:
                 r = ['route', 'mgmt', '10.88.0.0', '255.255.0.0', '10.99.0.254']
                 dev['routes'].append(r)
@@ -330,8 +342,8 @@ def mutate(rng, tgt, ios, with_groups=True, unmanaged=True, max_edits=None):
 def asa_header(cfg):
     out = []
     for i, n in enumerate(cfg['intfs']):
-        out += ['interface Ethernet0/%d' % i, ' nameif %s' % n]
-    return out
+        out += ['interface Ethernet0/%d' % i] + ([' shutdown'] if n in cfg.get('shut', []) else []) + [' nameif %s' % n]
+    return out + list(cfg.get('extra_header', []))
 
 
 def render_asa(cfg, device):
